@@ -72,6 +72,31 @@ def eval_closed(E, model, t, timeout_ms=5000):
 
 def judge(E, name, clause, hyps, goal, source, timeout_ms, witness_terms=None, extra=None, path_idx=None,
           exclude=None):
+    """Discharge one obligation; a conjunctive goal is discharged conjunct by conjunct (same hypotheses),
+    which is equivalent and much easier for the solver."""
+    if not isinstance(goal, bool):
+        g = z3.simplify(goal) if False else goal
+        if z3.is_and(g) and g.num_args() > 1:
+            parts = [judge1(E, name, clause, hyps, g.arg(i), source, timeout_ms, witness_terms, extra, path_idx, exclude)
+                     for i in range(g.num_args())]
+            worst = None
+            for st in ("refuted", "undecided", "discharged"):
+                for p in parts:
+                    if p["status"] == st:
+                        worst = p
+                        break
+                if worst:
+                    break
+            r = dict(worst)
+            r["seconds"] = sum(p["seconds"] for p in parts)
+            r["goal_text"] = str(g)[:400]
+            r["conjuncts"] = len(parts)
+            return r
+    return judge1(E, name, clause, hyps, goal, source, timeout_ms, witness_terms, extra, path_idx, exclude)
+
+
+def judge1(E, name, clause, hyps, goal, source, timeout_ms, witness_terms=None, extra=None, path_idx=None,
+           exclude=None):
     """Discharge one obligation and return the JSON result record.
     `exclude`: list of z3 predicates W (known-finding regions); the obligation is proved under
     /\\ not W (DESIGN section 6)."""
